@@ -3,6 +3,7 @@ package main
 import (
 	"fmt"
 	"go/token"
+	"go/types"
 	"sort"
 	"strings"
 
@@ -73,6 +74,7 @@ func runC16(c *Ctx) {
 		return
 	}
 	L.Rule("R-C16-CLOSEPATH", "msync → munmap → close; persistent flag blocks removal; no dropped error", 4)
+	L.Rule("R-C16-READONLY", "reopening an existing file writes no page word: no page-writing function is reachable on the existing-file path, reinit included", 2)
 	L.Rule("R-C16-REBUILD", "every field the mutators maintain is assigned on both open paths", 1)
 	L.Rule("R-C16-WHOLEFILE", "offset = len(buf) before data is taken; curSz == len(buf) in every Buffer literal", 2)
 	L.Rule("R-C16-PAGEFIT", "reinit scans only pages that fit entirely in t.data", 1)
@@ -247,6 +249,43 @@ func runC16(c *Ctx) {
 			"fields the mutators maintain but the reopen path does not rebuild: existing file {"+strings.Join(missingE, ",")+"} fresh file {"+strings.Join(missingF, ",")+"}: the reopened tree reports wrong statistics or loses its free list", open.Pos())
 	})
 
+	c.Group("R-C16-READONLY", "NewTreePersistent#existing", func() {
+		// opening an existing file only READS its pages: the volatile fields are rebuilt from them
+		// (reinit) and nothing is written back. A page word written on this path (a sentinel re-seeded
+		// "for safety", a page "repaired") changes the mapping the file held when it was closed.
+		open := P.Fn("z", "", "NewTreePersistent")
+		reinit := P.Fn("z", "Tree", "reinit")
+		tb := newTB(open)
+		W := pageWriters(P)
+		fresh := edgesWhere(open, tb, "ne(call[z.node.pageID](call[z.Tree.node](_,c[1])),c[0])", nil, false)
+		if len(fresh) == 0 {
+			L.Undecided("R-C16-READONLY", "NewTreePersistent#existing", "the fresh/existing file test `root.pageID() != 0` was not found", open.Pos())
+			return
+		}
+		isWriterCall := func(in ssa.Instruction) bool {
+			ci, ok := in.(ssa.CallInstruction)
+			if !ok {
+				return false
+			}
+			if sc := staticCallee(ci.Common()); sc != nil && W[origin(sc)] != "" {
+				return true
+			}
+			return false
+		}
+		bad, path := reach(entryPos(open), func(in ssa.Instruction) bool { return isWriterCall(in) || storesPageWord(in) }, nil, cutSet(fresh))
+		if bad != nil {
+			what := "a page word is written"
+			if ci, ok := bad.(ssa.CallInstruction); ok {
+				sc := origin(staticCallee(ci.Common()))
+				what = "calls " + fname(sc) + " (" + W[sc] + ")"
+			}
+			L.Fail("R-C16-READONLY", "NewTreePersistent#existing", "on the existing-file path (block path "+pathString(path)+") NewTreePersistent "+what+": reopening changes the stored mapping", instrPos(bad))
+		} else {
+			L.Ok("R-C16-READONLY", "NewTreePersistent#existing", fmt.Sprintf("no page-writing function (of %d in package z) is called on the existing-file path", len(W)), open.Pos())
+		}
+		L.Check(W[reinit] == "", "R-C16-READONLY", "Tree.reinit", "reinit and everything it calls only read page words", "reinit writes page contents: "+W[reinit], reinit.Pos())
+	})
+
 	c.Group("R-C16-WHOLEFILE", "NewTreePersistent#offset", func() {
 		fn := P.Fn("z", "", "NewTreePersistent")
 		tb := newTB(fn)
@@ -338,6 +377,34 @@ func runC16(c *Ctx) {
 		if ok {
 			L.Ok("R-C16-TWOPASS", "Tree.reinit#freelist", fmt.Sprintf("%d mark stores, none inside the counting pass; head chosen last", len(marks)), cnt.Pos())
 		}
+		// the head search is run on every path: a shortcut that returns before it ("no page points to
+		// another one, so there is no list") loses a free list of exactly one page, whose link is null
+		var scan *rangeLoop
+		for _, lp := range rangeLoopsOf(fn) {
+			lp := lp
+			if tb.T(lp.Slice).String() == tb.T(tail).String() && lp.Blocks()[head.Block()] {
+				scan = &lp
+			}
+		}
+		if scan == nil {
+			L.Undecided("R-C16-TWOPASS", "Tree.reinit#headscan", "the loop over the tail-page marks that picks the free-list head was not recognised", head.Pos())
+			return
+		}
+		inScan := func(in ssa.Instruction) bool { return in.Block() == scan.Hdr }
+		if bad, path := mustPass(entryPos(fn), inScan, nil); bad != nil {
+			L.Fail("R-C16-TWOPASS", "Tree.reinit#headscan", "reinit can return without searching for the free-list head (block path "+pathString(path)+"): freePage stays 0 although NumPagesFree counted free pages, and the recycled pages are never reused", instrPos(bad))
+			return
+		}
+		// inside the scan: the first unmarked page is taken (no exit from the loop body other than after the head store)
+		okExit := true
+		for b := range scan.Blocks() {
+			for _, s2 := range b.Succs {
+				if s2 != scan.Hdr && !scan.Blocks()[s2] && !(b == head.Block() || head.Block().Dominates(b)) {
+					okExit = false
+				}
+			}
+		}
+		L.Check(okExit, "R-C16-TWOPASS", "Tree.reinit#headscan", "the head search runs on every path and only stops at the first unmarked page", "the head search can stop before it found an unmarked page", head.Pos())
 	})
 
 	// free-list rules of C10
@@ -472,4 +539,73 @@ func closePathRule(c *Ctx) {
 		}
 		L.Check(ok, "R-C16-CLOSEPATH", "Tree.Close"+suffix, "returns buffer.Release()", "Tree.Close does not return buffer.Release()'s error", fn.Pos())
 	})
+}
+
+// storesPageWord: a store into an element of a []uint64-based value (a tree page viewed as node) or a
+// copy into one.
+func storesPageWord(in ssa.Instruction) bool {
+	isWords := func(t types.Type) bool {
+		sl, ok := t.Underlying().(*types.Slice)
+		if !ok {
+			return false
+		}
+		b, ok := sl.Elem().Underlying().(*types.Basic)
+		return ok && b.Kind() == types.Uint64
+	}
+	switch x := in.(type) {
+	case *ssa.Store:
+		if ia, ok := x.Addr.(*ssa.IndexAddr); ok && isWords(ia.X.Type()) {
+			return true
+		}
+	case *ssa.Call:
+		if b, ok := x.Call.Value.(*ssa.Builtin); ok && b.Name() == "copy" && isWords(x.Call.Args[0].Type()) {
+			return true
+		}
+	}
+	return false
+}
+
+// pageWriters: functions of package z that may write a page word, directly or through a static
+// callee / a closure they create; the value says through what.
+func pageWriters(P *Prog) map[*ssa.Function]string {
+	W := map[*ssa.Function]string{}
+	var fns []*ssa.Function
+	for _, fn := range P.SrcFuncs {
+		if fn.Pkg == P.Pkgs["z"] {
+			fns = append(fns, fn)
+		}
+	}
+	for _, fn := range fns {
+		eachInstr(fn, func(in ssa.Instruction) {
+			if W[fn] == "" && storesPageWord(in) {
+				W[fn] = "writes a page word at " + P.pos(instrPos(in))
+			}
+		})
+	}
+	for changed := true; changed; {
+		changed = false
+		for _, fn := range fns {
+			if W[fn] != "" {
+				continue
+			}
+			for _, a := range fn.AnonFuncs {
+				if W[a] != "" {
+					W[fn] = "through its closure " + fname(a)
+					changed = true
+				}
+			}
+			for _, ci := range allCalls(fn) {
+				if sc := staticCallee(ci.Common()); sc != nil && W[origin(sc)] != "" && W[fn] == "" {
+					W[fn] = "through " + fname(origin(sc))
+					changed = true
+				}
+			}
+		}
+	}
+	for f, w := range W {
+		if w == "" {
+			delete(W, f)
+		}
+	}
+	return W
 }
